@@ -19,6 +19,10 @@ func InitGenesis(ctx sdk.Context, k keeper.Keeper, genState types.GenesisState, 
 		}
 		k.SetState(ctx, state)
 	}
+	// create the main account here, as the other modules do for their accounts: otherwise the first
+	// GetModuleAccount call creates it, and that may be the module's own invariant run by x/crisis
+	// (node-local flags decide if and when it runs), which makes account numbers differ between nodes
+	ak.GetModuleAccount(ctx, types.DistributorMainAccount)
 }
 
 // ExportGenesis returns the capability module's exported genesis.
